@@ -346,6 +346,26 @@ fn exec(cx: &mut Ctx, op: &Op, pc: usize) -> Option<u64> {
             cx.mguards[m as usize] = None;
             None
         }
+        Op::UnwindLock { m } => {
+            struct Sentinel<'a>(&'a loom::sync::Mutex<()>);
+            impl Drop for Sentinel<'_> {
+                fn drop(&mut self) {
+                    // runs while the inner panic unwinds
+                    if let Ok(g) = self.0.lock() {
+                        drop(g);
+                    }
+                }
+            }
+            if cx.mguards[m as usize].is_none() {
+                let mref = &env.mutexes[m as usize];
+                let r = std::panic::catch_unwind(std::panic::AssertUnwindSafe(|| {
+                    let _s = Sentinel(mref);
+                    panic!("VERIF-INNER-PANIC");
+                }));
+                assert!(r.is_err());
+            }
+            None
+        }
         Op::RLock { l } => {
             let g = env.rwlocks[l as usize].read().unwrap();
             cx.rguards[l as usize].push(unsafe { std::mem::transmute(g) });
